@@ -1,6 +1,7 @@
 import ChiModel.ShapeEta
 import ChiModel.LogLikS1
 import ChiModel.Reduced
+import ChiModel.Labels
 import ChiProofs.Props.C02
 import ChiProofs.Props.C08
 import Mathlib.Data.List.Nodup
@@ -123,5 +124,87 @@ theorem C17_prefixed_nodup {ι ν σ : Type} (ids : List ι) (names : List ν) (
     obtain ⟨a, _, ha⟩ := hx1
     obtain ⟨b, _, hb⟩ := hx2
     exact hij (hinj i j a b (ha.trans hb.symm)).1
+
+/-! ## the IDs of the individuals (`_label_log_likelihoods`) -/
+section LabelsSec
+open Labels
+
+theorem labelGo_some (ls : List (Option String)) : ∀ (k : Nat) (seen r : List String),
+    labelGo k ls seen = some r → seen.Nodup →
+      r = seen.reverse ++ effectiveFrom k ls ∧ r.Nodup := by
+  induction ls with
+  | nil =>
+    intro k seen r h hs
+    simp only [labelGo, Option.some.injEq] at h
+    subst h
+    simp [effectiveFrom, hs]
+  | cons l ls ih =>
+    intro k seen r h hs
+    simp only [labelGo] at h
+    split at h
+    · cases h
+    · rename_i hnot
+      obtain ⟨h1, h2⟩ := ih (k + 1) (effective k l :: seen) r h (List.nodup_cons.mpr ⟨hnot, hs⟩)
+      refine ⟨?_, h2⟩
+      rw [h1]; simp [effectiveFrom]
+
+theorem labelGo_complete (ls : List (Option String)) : ∀ (k : Nat) (seen : List String),
+    (seen.reverse ++ effectiveFrom k ls).Nodup →
+      labelGo k ls seen = some (seen.reverse ++ effectiveFrom k ls) := by
+  induction ls with
+  | nil => intro k seen _; simp [labelGo, effectiveFrom]
+  | cons l ls ih =>
+    intro k seen h
+    simp only [labelGo]
+    have hnot : effective k l ∉ seen := by
+      intro hin
+      simp only [effectiveFrom] at h
+      have := (List.nodup_append.mp h).2.2 (effective k l) (by simpa using hin) (effective k l) (by simp)
+      exact this rfl
+    rw [if_neg hnot]
+    have : (effective k l :: seen).reverse ++ effectiveFrom (k + 1) ls
+        = seen.reverse ++ effectiveFrom k (l :: ls) := by simp [effectiveFrom]
+    rw [ih (k + 1) (effective k l :: seen) (by rw [this]; exact h), this]
+
+theorem effectiveFrom_length (ls : List (Option String)) : ∀ k, (effectiveFrom k ls).length = ls.length := by
+  induction ls with
+  | nil => intro k; rfl
+  | cons l ls ih => intro k; simp [effectiveFrom, ih]
+
+/-- C17 (IDs of the individuals): whenever a hierarchical log-likelihood comes into being, the IDs of its
+    individuals are pairwise distinct, one per individual, and each is the individual's own label or — if it
+    has none — `'Log-likelihood <position>'`. -/
+theorem C17_labels_nodup (ls : List (Option String)) (r : List String) (h : label ls = some r) :
+    r.Nodup ∧ r = effectiveFrom 0 ls ∧ r.length = ls.length := by
+  obtain ⟨h1, h2⟩ := labelGo_some ls 0 [] r h List.nodup_nil
+  have h1' : r = effectiveFrom 0 ls := by simpa using h1
+  exact ⟨h2, h1', by rw [h1', effectiveFrom_length]⟩
+
+/-- … and the constructor refuses exactly the label lists under which two individuals would end up with the
+    same ID (nothing else is refused). -/
+theorem C17_labels_reject_iff (ls : List (Option String)) :
+    label ls = none ↔ ¬ (effectiveFrom 0 ls).Nodup := by
+  constructor
+  · intro h hn
+    have := labelGo_complete ls 0 [] (by simpa using hn)
+    rw [label] at h; rw [h] at this; cases this
+  · intro hn
+    cases hl : label ls with
+    | none => rfl
+    | some r =>
+      obtain ⟨h2, h1, _⟩ := C17_labels_nodup ls r hl
+      exact absurd (h1 ▸ h2) hn
+
+/-- the test must be made on the label the individual ends up with: testing the raw label lets a default
+    collide with a label given earlier (witness: a likelihood re-used from an earlier model, labelled
+    'Log-likelihood 2', ahead of an unlabelled one) -/
+theorem C17_labels_early_test_counterexample :
+    labelGoEarly 0 [some "Log-likelihood 2", none] [] = some ["Log-likelihood 2", "Log-likelihood 2"] ∧
+    label [some "Log-likelihood 2", none] = none := by
+  constructor <;> decide
+
+example : label [none, some "patient 7", none] = some ["Log-likelihood 1", "patient 7", "Log-likelihood 3"] := by
+  decide
+end LabelsSec
 
 end ChiModel
